@@ -80,6 +80,12 @@ CLAIMS = {
    design_ref="DESIGN.md §4 C15",
    note="Partial: initial registers other than the program counter, stack and OS stubs are not part of the model; memory is the abstract byte map (C08 ties MemoryMap to it).",
    technique="Coq proofs (page arithmetic, write-sequence invariants) + model correspondence + differential testing against an independent reader"),
+ "C18": dict(
+   category="proof",
+   text="Coq theorems over a model of lsweep.iterblocks, block.cut and the support of cfg.graph: the blocks yielded for a stream are non-empty, concatenate to the stream, and each block followed by another is a maximal run closed by a control-flow instruction or by the delay slot of a delayed one; block.cut at an instruction address keeps exactly the prefix and reports the rest, elsewhere it changes nothing; and for every stream, every set of blocks that are maximal runs of it and every insertion order (with repetitions), the support contains an instruction iff an inserted block contains it, every such instruction lies in one block of the support and in only one. Tie: streams of real decoded instructions for 7 ISAs (delay slots on SPARC/MIPS/SH2) swept by lsweep: sequence consecutiveness and bytes, iterblocks/getblock, cut and slices, graph.support after insertion histories - all against the model (vm_compute) and against instruction bookkeeping, including the fall-through edge wherever a block was split. Three genuine defects repaired.",
+   design_ref="DESIGN.md §4 C18",
+   note="Domain as in the property: blocks are maximal runs of one stream started at an instruction that is not a delay slot; overlay blocks and function nodes are outside.",
+   technique="Coq proofs (stream partition, insertion-order invariant of the support) + model correspondence + differential bookkeeping"),
  "C20": dict(
    category="proof",
    text="Coq theorems over a model of read_program's try/except chain with abstract constructors: the chain always yields a recognised format or the raw fallback when no constructor raises outside its own error types, an exception can only escape from the first constructor that does not reject, and a file carrying one format's magic that its own constructor recognises is never claimed by another format when the magic prefix tables are pairwise disjoint; the HEX/SREC line parsers (modelled completely in C14) are total. Tie: regenerated obligation (the magic prefixes of the live constants are pairwise disjoint); the hypotheses are tested per run: read_program on random bytes, magic+random, truncations and corruptions of the samples and of synthesised ELF/PE/Mach-O/HEX/SREC files (14 worker processes with CPU-time and memory limits) never raises, stays within the limits, returns a format only for inputs with its magic and identifies every valid file as its own format; corrupted HEX/SREC lines are compared with the complete line model. Ten genuine defects repaired, one known finding.",
